@@ -1605,7 +1605,23 @@ class TypeSystem:  # noqa: PLR0904
             super_class: superclass
             sub_class: subclass
         """
+        if self._graph.has_edge(super_class, sub_class):
+            return
         self._graph.add_edge(super_class, sub_class)
+        self._clear_query_caches()
+
+    def _clear_query_caches(self) -> None:
+        """Drop all memoised answers that depend on the inheritance graph.
+
+        The answers of the cached queries are only valid for the graph they were
+        computed on, so they must not survive a change of the graph.
+        """
+        self.get_subclasses.cache_clear()
+        self.get_superclasses.cache_clear()
+        self.is_subclass.cache_clear()
+        self.is_subtype.cache_clear()
+        self.is_maybe_subtype.cache_clear()
+        self.subtype_distance.cache_clear()
 
     @functools.lru_cache(maxsize=1024)
     def get_subclasses(self, klass: TypeInfo) -> OrderedSet[TypeInfo]:
